@@ -357,6 +357,19 @@ func checkDowngrade(r *Report, p *Prog) {
 				okE = true
 			}
 		}
+		// ... or under "the descriptor publishes no key descriptor at all" (an early return before the scan)
+		if !okE {
+			for _, name := range B2.Support(fs.Cond(ret.Block())) {
+				ai := a2.Atoms[name]
+				if ai == nil || !fs.Implied(ret.Block(), B2.Var(name)) {
+					continue
+				}
+				j := strings.Join(ai.Args, " ")
+				if (ai.Kind == "eq" && strings.Contains(j, "c:0") && strings.Contains(j, "len(") || ai.Kind == "empty") && strings.Contains(j, "KeyDescriptors") && !strings.Contains(j, "KeyDescriptors[") {
+					okE = true
+				}
+			}
+		}
 		// ... or, when the search is made by helpers that hand back (certificate, found): the return is reached only when
 		// no call of such a helper found one (its condition contradicts the condition of every "found" return)
 		if !okE {
@@ -430,6 +443,11 @@ func checkDowngrade(r *Report, p *Prog) {
 			}
 			// "nothing chosen so far" (the result of an earlier scan is empty) is the fallback's own condition
 			if ai.Kind == "empty" && len(ai.Vals) > 0 && isCertString(fs, ai.Vals[0], 0, map[ssa.Value]bool{}) {
+				continue
+			}
+			// "the list of key descriptors is not empty" (an early return for an SP that publishes no key at all): a
+			// descriptor that is scanned comes from a non-empty list anyway
+			if strings.Contains(j, "KeyDescriptors") && !strings.Contains(j, "KeyDescriptors[") && (ai.Kind == "empty" || ai.Kind == "eq" && strings.Contains(j, "len(") && strings.Contains(j, "c:0")) && B2.Implies(cnd, B2.Not(B2.Var(name))) {
 				continue
 			}
 			extra = append(extra, name)
@@ -1481,4 +1499,97 @@ func handsBackResultsOf(fn *ssa.Function, call *ssa.Call) bool {
 		}
 	}
 	return len(ret.Results) > 0
+}
+
+// checkNoKeyOutcome: the IdP answers an SP that publishes no encryption certificate in clear. The emitter recognises
+// that outcome by comparing the selector's error with os.ErrNotExist; unless it does so with errors.Is, every return of
+// the selector on the "no certificate string was found" path hands back the sentinel itself (a wrapped or different
+// error is treated as a failure, and such an SP gets no response at all).
+func checkNoKeyOutcome(r *Report, p *Prog, rule string) {
+	sel, inline := encCertSelector(p)
+	if inline {
+		r.OK(rule, p.FnName(sel)+": the selection is written out in the emitting function", p.Pos(sel.Pos()), "no selector error to compare")
+		return
+	}
+	usesIs := false
+	for _, cs := range p.StaticCallersOf(sel) {
+		if len(callsTo(cs.Caller, "errors.Is")) > 0 {
+			usesIs = true
+		}
+	}
+	isSentinel := func(v ssa.Value) bool {
+		if ci, ok := v.(*ssa.ChangeInterface); ok {
+			v = ci.X
+		}
+		if ld, ok := v.(*ssa.UnOp); ok {
+			if g, ok := ld.X.(*ssa.Global); ok && g.Name() == "ErrNotExist" {
+				return true
+			}
+		}
+		return false
+	}
+	n := 0
+	// the selector and the helpers it is split into: every error value that is made of the sentinel
+	for _, fn := range helperRegion(p, sel, 2) {
+		a := NewAnalysis(p)
+		fs := a.Ctx(fn)
+		r.Fn(p.FnName(fn))
+		for _, b := range fn.Blocks {
+			for _, in := range b.Instrs {
+				c, ok := in.(*ssa.Call)
+				if !ok || c.Call.StaticCallee() == nil {
+					continue
+				}
+				nm := c.Call.StaticCallee().String()
+				if nm != "fmt.Errorf" && nm != "errors.Join" {
+					continue
+				}
+				wraps := false
+				for _, v := range varargValues(c) {
+					if isSentinel(v) {
+						wraps = true
+					}
+				}
+				if !wraps {
+					continue
+				}
+				n++
+				r.Check(usesIs, rule, p.FnName(fn)+": 'no encryption certificate' is reported as os.ErrNotExist itself", p.InstrPos(in), "the emitter tests with errors.Is",
+					"the selector hands back "+fs.AP(c)+", an error made of os.ErrNotExist, instead of the sentinel itself; the emitter compares by identity, treats it as a failure, and an SP without an encryption key gets no response")
+			}
+		}
+		// the sentinel itself returned, or assigned to the result variable
+		for _, b := range fn.Blocks {
+			for _, in := range b.Instrs {
+				ld, ok := in.(*ssa.UnOp)
+				if !ok || !isSentinel(ld) || ld.Referrers() == nil {
+					continue
+				}
+				for _, rf := range *ld.Referrers() {
+					switch rf.(type) {
+					case *ssa.Return, *ssa.Store, *ssa.Phi:
+						n++
+						r.OK(rule, p.FnName(fn)+": 'no encryption certificate' is reported as os.ErrNotExist itself", p.InstrPos(ld), "the sentinel the emitter compares with")
+					}
+				}
+			}
+		}
+	}
+	if n == 0 {
+		// the selector never hands back the sentinel: fine when the emitter does not wait for it either (the outcome is
+		// signalled otherwise, e.g. by a nil certificate); otherwise nothing ever takes the emitter's clear-text branch
+		waits := false
+		for _, cs := range p.StaticCallersOf(sel) {
+			for _, b := range cs.Caller.Blocks {
+				for _, in := range b.Instrs {
+					for _, op := range in.Operands(nil) {
+						if op != nil && *op != nil && isSentinel(*op) {
+							waits = true
+						}
+					}
+				}
+			}
+		}
+		r.Check(!waits, rule, p.FnName(sel)+": the 'no certificate found' outcome", p.Pos(sel.Pos()), "neither side uses os.ErrNotExist for it", "the emitter compares the selector's error with os.ErrNotExist, which the selector never returns: an SP without an encryption key gets no response")
+	}
 }
